@@ -108,25 +108,27 @@ def visit(acc, blk, vec, asg, idx):
 EDGES = (0.0, 0.1, 3.9, 4.0, 6.9, 7.0, 8.9, 9.0, 10.0)
 
 
-def run(ctx, res):
-    if ctx.thorough:
-        blocks = spaces.v2_blocks("thorough") + spaces.v3_blocks("thorough") + \
+def blocks(tier):
+    if tier == "thorough":
+        return spaces.v2_blocks("thorough") + spaces.v3_blocks("thorough") + \
             spaces.v4_blocks("thorough", "short")
-    else:
-        blocks = spaces.v2_blocks("quick")
-        for fam in ("3.0", "3.1"):
-            blocks.append(product.Block("v%s.base_x_temporal_spellings" % fam, fam,
-                                        spaces.v3_base_all(), spaces.v3_temporal_spellings()))
-            blocks.append(product.Block("v%s.inherit" % fam, fam, spaces.v3_base_all(),
-                                        spaces.v3_temporal_skeleton(4), spaces.v3_req_all()))
-        blocks += spaces.v4_blocks("quick", "short", ("mid", "mid"))
-    accs = product.run(ctx, blocks, visit, sweep.new_acc)
+    out = spaces.v2_blocks("quick")
+    out.append(product.Block("v3.base_x_temporal_spellings", "3.0", spaces.v3_base_all(),
+                             spaces.v3_temporal_spellings(), twin="3.1"))
+    out.append(product.Block("v3.inherit", "3.0", spaces.v3_base_all(), spaces.v3_temporal_skeleton(4),
+                             spaces.v3_req_all(), twin="3.1"))
+    return out + spaces.v4_blocks("quick", "short", ("mid", "mid"))
+
+
+def run(ctx, res):
+    blocks_ = blocks(ctx.tier)
+    accs = product.run(ctx, blocks_, visit, sweep.new_acc)
     tot = sweep.merge(accs)
     slot = set()
     for a in accs:
         slot |= a["extra"].get("slot_scores", set())
     tot["nontrivial"] = len(slot)
-    sweep.fill(res, ctx, tot, blocks,
+    sweep.fill(res, ctx, tot, blocks_,
                "every point of the listed product blocks is constructed with the real class; "
                "scores(), severities(), CVSS4.severity, as_json() severities and the rh_vector() "
                "score text are checked against format predicates and the official scales; "
@@ -153,3 +155,7 @@ def replay(case):
         raise core.HarnessError("replay input is not a valid vector")
     why, obs = judge(fam, vec, dict(got))
     return bool(why), why or "well-formed: %r" % (obs,)
+
+
+def replay_task(case):
+    return product.replay_task(blocks(case.get("tier") or "quick"), visit, sweep.new_acc, case)
